@@ -242,7 +242,9 @@ theorem pageHeadersAt_cover (k : Codec) (c : Col) (ess : List PageEntries) (pre 
 def phStep (file : Bytes) (acc : List PHdr) (ch : ChunkMeta) : R (List PHdr) :=
   match ch.md with
   | none => .error .panic
-  | some m => match pageHeadersAt file m.dataPageOffset m.numValues with
+  | some m =>
+    if m.totalCompressed = 0 then .ok acc else
+    match pageHeadersAt file m.dataPageOffset m.numValues with
     | .error e => .error e
     | .ok hs => .ok (acc ++ hs)
 
@@ -263,7 +265,15 @@ theorem phStep_chunk (k : Codec) (p : PItem) (hp : PagesNE p) (pre post : Bytes)
       .ok (acc ++ chunkHdrs k p) := by
   have h := pageHeadersAt_cover k p.1 p.2 pre post (((p.2.map List.length).sum : Nat) : Int) hp.1 (by omega)
   rw [coverPrefix_all _ p.2 0 _ hp.2 (by omega)] at h
-  simp only [phStep, chunkMetaOf, colChunk_numValues, h, chunkHdrs]
+  have hpos : ¬ (((colChunk k p.1 p.2).totalCompressed : Nat) : Int) = 0 := by
+    rw [colChunk_totalCompressed]
+    obtain ⟨es, rest, hes⟩ := List.exists_cons_of_ne_nil hp.1
+    have h1 := pageHeader_length_pos k p.1 es
+    have h2 : (chunkBytes k p.1 p.2).length =
+        (pageBytes k p.1 es).1.length + ((pageBytes k p.1 es).2.length + (chunkBytes k p.1 rest).length) := by
+      rw [hes]; simp [chunkBytes, pageWrites]
+    omega
+  simp only [phStep, chunkMetaOf, colChunk_numValues, h, chunkHdrs, if_neg hpos]
 
 /-- the chunk walk of `PageHeaders` over the chunks of one row group laid out from `pre.length` -/
 theorem phStep_items (k : Codec) :
